@@ -321,16 +321,19 @@ Vacuum(lexLen, lexLen2, pe) ==
 \* Memvid::doctor(path, opts) on a closed file: replays the pending window, optionally vacuums, rebuilds what the
 \* options ask for, recomputes the TOC and resets the log (sequence numbers restart from 0); a run that finds
 \* nothing to do reports Clean and changes nothing; dry_run only plans
-Doctor(vac, rebuild, dry, st) ==
+\* which status may doctor report?
+DoctorStatusAllowed(vac, rebuild, dry, st) ==
+  LET todo == pend # <<>> \/ vac \/ rebuild
+      \* C21: a run right after a completed run finds nothing to do.  Otherwise a run without pending records
+      \* or options may still report Healed: the health of the index segments is not part of this model.
+      immediate == last.op = "doctor" /\ last.val \in {"Healed", "Clean"} IN
+  /\ st \in {"Clean", "Healed", "PlanOnly"}
+  /\ (dry => st = (IF todo THEN "PlanOnly" ELSE st) /\ st \in {"PlanOnly", "Clean"})
+  /\ (~dry => st \in {"Clean", "Healed"} /\ (todo => st = "Healed") /\ (~todo /\ immediate => st = "Clean"))
+
+DoctorEffect(vac, rebuild, dry, st) ==
   /\ hdl = "none" /\ exists = "ok"
-  /\ LET todo == pend # <<>> \/ vac \/ rebuild
-         \* C21: a run right after a completed run finds nothing to do.  Otherwise a run without pending records
-         \* or options may still report Healed: the health of the index segments is not part of this model.
-         immediate == last.op = "doctor" /\ last.val \in {"Healed", "Clean"} IN
-     /\ st \in {"Clean", "Healed", "PlanOnly"}
-     /\ (dry => st = (IF todo THEN "PlanOnly" ELSE st) /\ st \in {"PlanOnly", "Clean"})
-     /\ (~dry => st \in {"Clean", "Healed"} /\ (todo => st = "Healed") /\ (~todo /\ immediate => st = "Clean"))
-     /\ IF dry
+  /\ IF dry
        THEN /\ last' = Obs("doctor", "ok", st)
             /\ UNCHANGED <<exists, frames, pend, wal, hdl, snap, dirty, pins, noAuto, ticket, cpe, acked>>
        ELSE \* as built, also a run that reports Clean rewrites the header and zeroes the (checkpointed) log
@@ -341,6 +344,8 @@ Doctor(vac, rebuild, dry, st) ==
             /\ wR' = wR /\ wh' = 0 /\ wpb' = 0 /\ wapc' = 0 /\ wseq' = 0 /\ wcseq' = 0
             /\ last' = Obs("doctor", "ok", st)
             /\ UNCHANGED <<exists, hdl, snap, dirty, pins, noAuto, ticket, cpe>>
+
+Doctor(vac, rebuild, dry, st) == DoctorStatusAllowed(vac, rebuild, dry, st) /\ DoctorEffect(vac, rebuild, dry, st)
 
 ApplyTicket(s, c) ==
   /\ hdl = "rw"
